@@ -14,6 +14,7 @@ type fgen struct {
 	n   int
 	tag string
 	skipProb, parProb, badProb float64
+	moveProb                   float64
 }
 
 func newFgen(seed int64, tag string) *fgen { return &fgen{r: rand.New(rand.NewSource(seed)), tag: tag} }
@@ -29,6 +30,7 @@ func (g *fgen) chance(p float64) bool    { return g.r.Float64() < p }
 var structLines = []string{
 	"", " ", "a", "b", "c d", "---", "/-/-/-/", "--- ", " ---", "----", "--", "/-/-/-/ ", " /-/-/-/",
 	"[TestGhost - 7]", "[TestA - 1] ", "[TestA - 1", "TestA - 1]", "[BenchmarkX - 1]", "[TestA - x]", "[]", "[Test - ]",
+	"see [TestA - 1]", "pinned by [TestB - 1]", "[TestA - 1] trailing text", "--- a/x.txt", "-----", "---\t",
 	"  indented", "trailing  ", "%d %s %v", "100%", "{\"a\": 1}", "- item", "key: value", "# comment", "...",
 }
 
@@ -76,6 +78,14 @@ func (g *fgen) text() string {
 	n := 1 + g.r.Intn(4)
 	if g.chance(0.1) {
 		n = 5 + g.r.Intn(20)
+	}
+	if g.chance(0.04) {
+		// a body of several KB in many lines (crosses bufio's refill boundaries)
+		ls := make([]string, 150+g.r.Intn(200))
+		for i := range ls {
+			ls[i] = fmt.Sprintf("row %04d %s", i, strings.Repeat(string(rune('a'+g.r.Intn(26))), 20+g.r.Intn(40)))
+		}
+		return strings.Join(ls, "\n")
 	}
 	ls := make([]string, n)
 	for i := range ls {
@@ -278,6 +288,8 @@ func stdConfigs() map[string]*Cfg {
 		"e":  {Dir: sp("@/snaps"), Filename: sp("ext"), Ext: sp(".txt")},
 		"d2": {Dir: sp("@/other/deep")},
 		"fn":  {Filename: sp("custom")}, // default directory, custom file name
+		"nc":  {Dir: sp("@/./snaps//")},  // a Dir that is not in cleaned form
+		"gl":  {Dir: sp("@/proj[v2]/sn*ps")}, // glob metacharacters in the path
 		"bad": {Dir: sp("@/blocker/snaps")}, // "blocker" is a regular file: nothing can be created below it
 	}
 }
